@@ -72,7 +72,7 @@ def generate(seed, tier):
         SC.make_big_plan(rw, cfg)
         cfg["Lmin"] = Lmin
         N = rw.choice([1500, 3000])
-    data = {"N": N + d, "channels": 1, "recipe": rw.choice(["noise", "noise", "multisine", "trend+noise", "randwalk", "sine+noise", "line+floor", "steepred"]),
+    data = {"N": N + d, "channels": 1, "recipe": rw.choice(["noise", "noise", "multisine", "trend+noise", "randwalk", "sine+noise", "line+floor", "steepred", "gapped", "gapped"]),
             "rng": rw.randrange(2 ** 31), "scale": rw.choice([1.0, 1e-3, 1e3]), "offset": rw.choice([0.0, 0.0, 1.0]), "coupling": 0.0}
     # data faults: non-finite samples in the base record z are zero-filled in both channels consistently
     # (x and y are slices of z), so both laws survive sanitising
@@ -83,6 +83,7 @@ def generate(seed, tier):
         # DC / Nyquist / above-Nyquist (accepted with a warning) single bins with explicit L
         singles.append(["edge", rw.choice([0.0, 0.5, round(rw.uniform(0.5, 1.0), 4), round(rw.uniform(0.5, 1.0), 4)]), rw.choice([16, 32, 33, 64])])
     rows_of_recording = rw.randrange(1, 2 ** 31) if rw.random() < 0.3 else None
+    concurrent_decoy = rw.randrange(1, 2 ** 31) if rw.random() < 0.3 else None
     # attributes a user may read before the transfer function (exports, conditioned spectra, error bars ...)
     auto_first = rw.random() < 0.3      # the first channel analysed alone (same plan) before the pair, in the same process
     pre_access = rw.sample(RM.CROSS_ONLY + ["Gxx", "Gyy", "Gxy", "ENBW", "to_dataframe"], rw.randrange(0, 5)) if rw.random() < 0.5 else []
@@ -94,7 +95,7 @@ def generate(seed, tier):
         g2 = rw.choice([1.0, -1.0, 2.0, 0.5, -3.0, 7.0])
         data2 = dict(data, recipe=rw.choice(["noise", "multisine", "randwalk"]), rng=rw.randrange(2 ** 31), N=N + d2)
         refills.append({"law": law2, "g": g2, "d": d2, "data": data2})
-    return {"law": law, "g": g, "d": d, "N": N, "data": data, "cfg": cfg, "singles": singles, "refills": refills, "pre_access": pre_access, "auto_first": auto_first, "rows_of_recording": rows_of_recording,
+    return {"law": law, "g": g, "d": d, "N": N, "data": data, "cfg": cfg, "singles": singles, "refills": refills, "pre_access": pre_access, "auto_first": auto_first, "rows_of_recording": rows_of_recording, "concurrent_decoy": concurrent_decoy,
             "worlds": [W.gen_world(rf, k, 8) for k in kinds], "clock": CK.gen_clock(R.stream(seed, "clock"), p_none=0.5)}
 
 
@@ -167,6 +168,11 @@ def _execute_stage(sc, out, buf, stage):
                     except Exception:
                         pass
                 an = SC.build_analyzer(data, cfg)
+                decoy = None
+                if world == "numpy" and sc.get("concurrent_decoy"):
+                    drec = np.random.default_rng(sc["concurrent_decoy"]).normal(size=data.shape)
+                    drec[1] = 7.25 * drec[0]
+                    decoy = SC.build_analyzer(drec, dict(cfg, band=None))
                 try:
                     an.plan()
                 except Exception as e:
@@ -174,7 +180,15 @@ def _execute_stage(sc, out, buf, stage):
                     out.count("discarded_plan_failure")
                     out.extra["discard_reason"] = f"{type(e).__name__}: {e}"[:200]
                     return
-                res = an.compute()
+                if decoy is not None and ctx is not None:
+                    try:
+                        decoy.plan()
+                        res, _dres = W.run_concurrently(ctx, [an.compute, decoy.compute])     # another caller at the same time
+                        out.count("two_concurrent_callers")
+                    except Exception:
+                        res = an.compute()
+                else:
+                    res = an.compute()
                 for nm in sc.get("pre_access", []):
                     try:
                         res.to_dataframe() if nm == "to_dataframe" else getattr(res, nm)
